@@ -36,6 +36,7 @@ class FnContract:
         self.opts = {}
         self.src = None
         self.attrs = []         # extra verus attributes e.g. #[verifier::rlimit(50)]
+        self.outlines = []      # R30: dict(nth, pat, call, lines): one statement moved into a helper fn with its own contract
         self.decreases = None
 
 
@@ -47,7 +48,7 @@ def hint_asserts(c):
     They state intermediate facts of the property itself (e.g. 'the bytes written so far are the first k properties'),
     so a failure is reported as a failed named obligation, unlike an anonymous proof hint."""
     out = []
-    groups = [c.entry] + [ins[3] for ins in c.inserts]
+    groups = [c.entry] + [ins[3] for ins in c.inserts] + [o["lines"] for o in c.outlines]
     for l in c.loops.values():
         groups += [l["top"], l["bottom"]]
     for g in groups:
@@ -117,6 +118,8 @@ def parse_vc(path):
                 cur.loops[loopn]["bottom"] += buf
             elif section == "insert":
                 ins[3].extend(buf)
+            elif section == "outline":
+                cur.outlines[-1]["lines"].extend(buf)
         section = None
         buf = []
 
@@ -208,6 +211,12 @@ def parse_vc(path):
                 ins = (key[1:], int(m.group(1) or 1), tokenize(m.group(2)), [])
                 cur.inserts.append(ins)
                 section = "insert"
+            elif key == "@outline":
+                m = re.match(r"(?:(\d+)\s+)?`(.*)`\s*=>\s*`(.*)`\s*$", arg)
+                if not m:
+                    raise GenError("bad @outline directive in %s: %s" % (path, arg))
+                cur.outlines.append(dict(nth=int(m.group(1) or 1), pat=tokenize(m.group(2)), call=tokenize(m.group(3)), lines=[]))
+                section = "outline"
             elif key == "@subst":
                 m = re.match(r"`(.*)`\s*=>\s*`(.*)`\s*$", arg)
                 if not m:
@@ -755,9 +764,72 @@ def extract_fn(idx, c, rewrites, sig_only=False):
     sig, body = rw_mut_params(sig, body, log)
     sig = strip_quals(sig)
     sig, has_ret = named_return(sig, c.ret)
+    if c.outlines and not sig_only:
+        body = apply_outlines(body, c, short_id(c.path), log)
     rewrites.append((c.path, log))
     src_hash = hashlib.sha256(norm(it.toks).encode()).hexdigest()[:16]
     return sig, body, src_hash
+
+
+def stmt_end(body, pos, pat):
+    """index just past the statement that starts with the tokens `pat` at `pos` (next `;` at bracket depth 0)"""
+    end = pos + len(pat)
+    depth = sum(1 for t in pat if t in rtok.OPEN) - sum(1 for t in pat if t in rtok.CLOSE)
+    while end < len(body):
+        t = body[end]
+        if t in rtok.OPEN:
+            depth += 1
+        elif t in rtok.CLOSE:
+            if depth == 0:
+                break
+            depth -= 1
+        elif t == ";" and depth == 0:
+            end += 1
+            break
+        end += 1
+    return end
+
+
+PENDING_HELPERS = []   # (fnid, [(line, origin)]) emitted after the current impl block
+
+
+def apply_outlines(body, c, fnid, log):
+    """R30: move one statement (its tokens unchanged) into a helper fn `h` and call it in place: `S;` -> `<call>`.
+    The helper's signature, contract and tail expression are given in the contract file."""
+    for o in c.outlines:
+        pos = -1
+        start = 0
+        for _ in range(o["nth"]):
+            pos = find_seq(body, o["pat"], start)
+            if pos < 0:
+                raise GenError("lost anchor: statement `%s` (occurrence %d) to outline not found in %s" % (norm(o["pat"]), o["nth"], c.path))
+            start = pos + 1
+        end = stmt_end(body, pos, o["pat"])
+        stmt = body[pos:end]
+        body = body[:pos] + list(o["call"]) + body[end:]
+        head = []
+        tail = ""
+        for ln in o["lines"]:
+            st = ln.strip()
+            if not st:
+                continue
+            if st.startswith("tail:"):
+                tail = st[5:].strip()
+                continue
+            m = HINT_LABEL.match(st)
+            if m:
+                head.append(("        " + m.group(2) + ",", "%s:outlined#%s" % (fnid, m.group(1))))
+            else:
+                head.append(("    " + st, "%s:body" % fnid))
+        lines = head + [("{", "%s:body" % fnid)]
+        for ln in render(stmt, indent=0).split("\n"):
+            lines.append(("    " + ln, "%s:body" % fnid))
+        if tail:
+            lines.append(("    " + tail, "%s:body" % fnid))
+        lines.append(("}", "%s:body" % fnid))
+        PENDING_HELPERS.append((fnid, lines))
+        log.append(("R30 statement `%s ..` outlined into a helper fn called in place as `%s`" % (norm(o["pat"])[:60], norm(o["call"])), 1))
+    return body
 
 
 def splice_body(em, body, c, fnid):
@@ -778,6 +850,9 @@ def splice_body(em, body, c, fnid):
         spec = c.loops[n]
         ob = loop_body_brace(body, i)
         add_ins(ob, ("loopspec", n, spec))
+        if c.opts.get("bits"):
+            # broadcast groups named at function level do not reach into (isolated) loop bodies
+            add_ins(ob + 1, ("raw", ["proof { broadcast use crate::base::group_bits8; }"]))
         if spec["top"]:
             add_ins(ob + 1, ("raw", spec["top"]))
         if spec["bottom"]:
@@ -834,6 +909,8 @@ def splice_body(em, body, c, fnid):
         em.add("    broadcast use crate::base::group_ext;")
     if c.opts.get("prefix"):
         em.add("    broadcast use crate::base::group_prefix;")
+    if c.opts.get("bits"):
+        em.add("    broadcast use crate::base::group_bits8;")
     def add_hint(indent, ln):
         m = HINT_LABEL.match(ln.strip())
         if m:
@@ -1174,8 +1251,19 @@ def emit_group(em, idx, entries, all_specs, rewrites, fninfo):
                 em.add("    " + join(rw_common(list(ch.toks), log)))
         for text in implspecs.get(key, []):
             em.add(text)
+        del PENDING_HELPERS[:]
         for c, verify in groups[key]:
             h = emit_fn(em, idx, c, rewrites, verify=verify, in_trait_impl=is_trait)
             fninfo.append(dict(path=c.path, props=c.props, verified=verify and c.mode != "trusted", variant=c.opts.get("variant"),
                                trusted_by=c.trusted_by, sha=h, vc=os.path.basename(c.src)))
         em.add("}")
+        if PENDING_HELPERS:
+            # R30 helpers live in an inherent impl of the same type
+            nh = norm(hdr)
+            ty = nh.split(" for ", 1)[1] if " for " in nh else nh.split("impl", 1)[1]
+            em.add("impl %s {   // R30: statements outlined from the functions above (tokens unchanged)" % ty.strip())
+            for fnid, lines in PENDING_HELPERS:
+                for ln, org in lines:
+                    em.add(ln, origin=org)
+            em.add("}")
+            del PENDING_HELPERS[:]
